@@ -157,7 +157,8 @@ def codec? (name : String) : Option Codec :=
       (fun f P => some (if f == "compressed" then Bls.encodeCompressed io 48 (wOf P) else Bls.encodeUncompressed io 48 (wOf P)))
       (fun f bs => (if f == "compressed" then Bls.decodeCompressed io a b C.n 48 bs else Bls.decodeUncompressed io a b C.n 48 bs).map wTo)
       (fun x y => (Bls.fromAffine a b C.n (Fp.ofNat q (x.headD 0)) (Fp.ofNat q (y.headD 0))).map wTo)
-      (some fun x odd => (fromAffineX (fpIO q) a b (Fp.ofNat q (x.headD 0)) odd).map wTo)
+      (some fun x odd => ((fromAffineX (fpIO q) a b (Fp.ofNat q (x.headD 0)) odd).bind fun P =>
+        if Bls.inSub a C.n P then some P else none).map wTo)
       48 96
   else if name == "bls12381g2" then (fun (o : Option Codec) => o.map fun c => { c with flagsOk := blsFlags, layout := lay 0 true 48 2 3 3 false }) <| withPrime blsP none fun q =>
     let C := bls12381g2
